@@ -4,9 +4,13 @@ import json
 
 import numpy as np
 
+# Module-level state, as user plug-ins have it (a seeded generator, a counter): ladim executes a plug-in file given by path
+# afresh for every Model, so every run must see it start from scratch.
+_UPDATES = [0]
+
 
 class IBM:
-    def __init__(self, modules, kills=None, age=False, logfile=None, marker="sibm", agelimit=None, kill_tags=None, touchfile=None, dose=False, settle_age=None, age_rate=1.0, **kw):
+    def __init__(self, modules, kills=None, age=False, logfile=None, marker="sibm", agelimit=None, kill_tags=None, touchfile=None, dose=False, settle_age=None, age_rate=1.0, module_state=False, **kw):
         self.modules = modules
         self.kills = {int(k): list(v) for k, v in (kills or {}).items()}
         self.kill_tags = {int(k): list(v) for k, v in (kill_tags or {}).items()}
@@ -18,6 +22,7 @@ class IBM:
         self.touchfile = touchfile
         self.dose, self.settle_age = dose, settle_age
         self.age_rate = age_rate  # 0 is a legal value (the age does not advance) and differs from the default
+        self.module_state = module_state
 
     def update(self):
         if self.touchfile:
@@ -28,8 +33,11 @@ class IBM:
         self.log.append(dict(step=step, pid=st.pid.tolist(), alive=st.alive.tolist(), X=st.X.tolist(), Y=st.Y.tolist(), Z=st.Z.tolist()))
         if self.dose:  # a quantity that depends on where the particle is AFTER the move
             st["dose"] = st["dose"] + st.X * self.dt
+        _UPDATES[0] += 1
         if self.age:
             st["age"] += self.dt * self.age_rate
+            if self.module_state:  # the age carries the number of IBM updates since the plug-in file was loaded (0.5 s each)
+                st["age"] += 0.5 * _UPDATES[0]
             if self.settle_age is not None:  # settled particles stay alive but are not moved any more
                 st["active"] = st.active & (st.age < self.settle_age)
             if self.agelimit is not None:
